@@ -99,6 +99,25 @@ func resync(metaPath, scratch string) (before, after state, err error) {
 	return
 }
 
+// resyncRO reads the state of a read-only opened copy of the bbolt file.
+func resyncRO(metaPath, scratch string) (before, after state, err error) {
+	_ = os.RemoveAll(scratch)
+	if err = os.MkdirAll(scratch, 0o700); err != nil {
+		return
+	}
+	cp := filepath.Join(scratch, "meta")
+	if err = snap.Copy(metaPath, cp); err != nil {
+		return
+	}
+	ro := meta.New(stor.MetaOpts(cp, &stor.Epoch{})...)
+	if err = ro.Open(true); err != nil {
+		return
+	}
+	before, err = read(ro)
+	_ = ro.Close()
+	return before, before, err
+}
+
 // follow keeps the model in step with the implementation where they differ on
 // Put admission because of the C01 findings (not this property's business).
 func follow(rec *ev.Recorder) func(w *drv.World, s uni.Spec, model, real mm.Class) bool {
